@@ -1,8 +1,8 @@
 """C16 — object export / import round-trips and survives JSON."""
 from vfam import *  # noqa
 
-THEOREMS = ["C16_hex_roundtrip", "C16_json_idempotent", "C16_uint_roundtrip", "C16_bool_roundtrip"]
-PARTIAL = ["C16_shape / C16_roundtrip for composite kinds are not proved; exported shape (tagged: int / bool / str / list / tuple / dict / None), from_obj, JSON round trip and alternative spellings are compared with the model and with the root of the original by the correspondence"]
+THEOREMS = ["C16_hex_roundtrip", "C16_json_idempotent", "C16_uint_roundtrip", "C16_bool_roundtrip", "C16_roundtrip", "C16_json_invariant"]
+PARTIAL = ["C16_roundtrip is the full statement for every type (any representation, also through JSON) under the model's field naming f0, f1, ... with fewer than 10^20 fields per container; the documented plain SHAPE of the exported object (numbers vs. hex strings, tuples vs. lists, key names of the real classes) and the alternative input spellings accepted by from_obj (decimal strings, byte lists, bit strings) are covered by the correspondence (exact tagged shape, alternative spellings; all roots = original)"]
 COQ_IMPORTS = ["RM.Types", "RMR.RunC16"]
 COQ_FN = "RunC16.run"
 COQ_CASE_TY = "RunC16.case"
